@@ -24,12 +24,12 @@ CHECKS = {
         technique="TLA+ model checking (TLC) + trace validation of real overlay sessions against the TLA+ overlay-stream property and model"),
     "C13": dict(
         level="model_checking", ref="DESIGN.md §4 C13",
-        text="TLA+ model of the wire reader (offsets as framed sums, three-state save protocol, byte-granular and block-boundary sources, pop between messages, resume of a new reader with discard of Offset - sourceOffset) model-checked exhaustively for short streams over every block-boundary placement; real write/read round trips over message-size classes x {none, gzip -2..9, brotli 0..11} with WantSave schedules, PopCheckpoint at every boundary and every popped checkpoint gob-round-tripped into a new reader; TLC evaluates the property on every recorded session and steps the model along it (source = logged environment).",
+        text="TLA+ model of the wire reader (offsets as framed sums, three-state save protocol, byte-granular and block-boundary sources, pop between messages, resume of a new reader with discard of Offset - sourceOffset, rewinding of the same reader with a save pending) model-checked exhaustively for short streams over every block-boundary placement; real write/read round trips over message-size classes x {none, gzip -2..9, brotli 0..11} with WantSave schedules, PopCheckpoint at every boundary and every popped checkpoint gob-round-tripped into a new reader; TLC evaluates the property on every recorded session and steps the model along it (source = logged environment).",
         note="payload equality via SHA-256 in the harness; the decompressors (savior gzip/brotli sources) are environment whose checkpoint offsets are bound from the log; ZSTD has no registered compressor.",
         technique="TLA+ model checking (TLC) + trace validation of real reader sessions against the TLA+ wire model"),
     "C12": dict(
         level="model_checking", ref="DESIGN.md §4 C12",
-        text="Three TLA+ modules: the abstract automaton of bsdiff control series (absolute old offset, add = byte-wise sum mod 256, copy, seek, single final end-of-series, resume from a saved offset), the chunked LRU read cache (model-checked; one witness walk per transition replayed on the real lrufile at model scale comparing bytes, EOF, offsets and hit/miss counters) and the dispatcher/worker/collector pipeline of the scanner (order, no wedge, completion under fairness). The real bsdiff.Do runs on every small (old,new) x partitions and on random large pairs; TLC accepts or rejects each real series with the automaton (verbatim at small scale, digest facts at large scale) and compares the real applier's offset trajectory, output and resumptions.",
+        text="Three TLA+ modules: the abstract automaton of bsdiff control series (absolute old offset, add = byte-wise sum mod 256, copy, seek, single final end-of-series, resume from a saved offset), the chunked LRU read cache with resets (model-checked; every short walk at a tiny geometry and one witness walk per transition replayed on the real lrufile at model scale comparing bytes, EOF, offsets and hit/miss counters) and the dispatcher/worker/collector pipeline of the scanner (order, no wedge, completion under fairness). The real bsdiff.Do runs on every small (old,new) x partitions and on random large pairs; TLC accepts or rejects each real series with the automaton (verbatim at small scale, digest facts at large scale) and compares the real applier's offset trajectory, output and resumptions.",
         note="SHA-256 digests stand for byte equality at large scale; suffix sorter and LRU library enter only through real executions; a crash of the real differ kills the driver and is reported from a marker file.",
         technique="TLA+ model checking (TLC) + model walks replayed on the real cache + trace validation of real control series against the TLA+ automaton"),
     "C01": dict(
@@ -74,7 +74,7 @@ CHECKS = {
         technique="TLA+ model checking (TLC) + trace validation of real validator runs against the TLA+ wound model and property"),
     "C09": dict(
         level="model_checking", ref="DESIGN.md §4 C09",
-        text="TLA+ model of the safekeeper's validate-then-read reader (per-block verdict cache, comparison of the signed block size, end-of-file handling) with its two consumers (copy until EOF, block-range copy through a limit reader), model-checked for every (signed, actual) of one old file: result = error or output = expected, undamaged => accepted. The same cases at unit scale go through the real safekeeper along the real consumers' code paths (TLC decides on the real outcome and compares it with the model's); (patch, damage) pairs - plain and optimized patches of generated build pairs, old build flipped / truncated (also at block boundaries, to nothing) / extended (inside the last block, past it) / files deleted / empty files filled / weak-hash twins - are applied with the fresh bowl through the safekeeper: either an error or exactly the new build, and an undamaged old build is accepted.",
+        text="TLA+ model of the safekeeper's validate-then-read reader (per-block verdict cache, comparison of the signed block size, end-of-file handling) with its three consumers (copy until EOF, block-range copy through a limit reader, one cache chunk read in the middle of a block) under both kinds of inner pool (EOF on a read of its own / together with the last bytes), model-checked for every (signed, actual) of one old file: result = error or output = expected, undamaged => accepted. The same cases at unit scale go through the real safekeeper along the real consumers' code paths (TLC decides on the real outcome and compares it with the model's); (patch, damage) pairs - plain and optimized patches of generated build pairs, old build flipped / truncated (also at block boundaries, to nothing) / extended (inside the last block, past it) / files deleted / empty files filled / weak-hash twins - are applied with the fresh bowl through the safekeeper: either an error or exactly the new build, and an undamaged old build is accepted.",
         note="scope: fresh bowl; SHA-256 digests stand for byte equality; hash collisions other than crafted weak-hash twins not modelled.",
         technique="TLA+ model checking (TLC) + trace validation of real safekeeper reads and applications against the TLA+ reader model and property"),
     "C16": dict(
